@@ -41,6 +41,21 @@ def run_case(ctx, rng, idx):
         ctx.event("exhaustive-4-node-hypergraph")
         undirected_eval(ctx, rng, idx, h)
         return
+    if idx == 2 or (ctx.tier == "thorough" and idx % 700 == 11):
+        # hyperedges that SHARE 256, 257, 258 nodes (the dual of a node pair in 256+ hyperedges): intersection sizes are
+        # numbers, not bytes.  Only the line graph is judged on this input (its downward closure has 2**300 faces).
+        import hypergraphx as hgx
+
+        ctx.event("hyperedges-sharing-256+-nodes")
+        base = rng.choice([0, 1000])
+        A = tuple(range(base, base + 300))
+        B = tuple(range(base, base + 256)) + tuple(range(base + 400, base + 440))
+        C = tuple(range(base, base + 257)) + tuple(range(base + 500, base + 520))
+        D = tuple(range(base, base + 258)) + (base + 600,)
+        small = [(base, base + 700), (base + 700, base + 701, base + 1), (base + 299, base + 702)]
+        hb = hgx.Hypergraph([A, B, C, D] + small)
+        undirected_eval(ctx, rng, idx, hb, only_line=True)
+        return
     if idx == 1 or (ctx.tier == "thorough" and idx % 700 == 9):
         from ..gen import big_hypergraph
 
@@ -73,7 +88,7 @@ def run_case(ctx, rng, idx):
         undirected_eval(ctx, rng, idx, g2)
 
 
-def undirected_eval(ctx, rng, idx, h):
+def undirected_eval(ctx, rng, idx, h, only_line=False):
     from hypergraphx.representations import projections as pr
     from hypergraphx.representations.simplicial_complex import simplicial_complex
 
@@ -85,8 +100,10 @@ def undirected_eval(ctx, rng, idx, h):
         return {"object": S.describe() if len(S.edges) <= 30 else {"nodes": len(S.nodes), "edges": len(S.edges)}, "extra": repr(extra)[:700]}
 
     # ---- bipartite --------------------------------------------------------------------------
-    r = call(pr.bipartite_projection, h)
-    if isinstance(r, _Raised):
+    r = call(pr.bipartite_projection, h) if not only_line else None
+    if r is None:
+        pass
+    elif isinstance(r, _Raised):
         ctx.check("C10:bipartite", False, f"C10:bipartite:raised:{type(r.e).__name__}", lambda: wit(r))
     else:
         g, ids = r
@@ -108,7 +125,7 @@ def undirected_eval(ctx, rng, idx, h):
             ctx.check("C10:bipartite", got == exp and g.number_of_edges() == len(exp), "C10:bipartite:membership-edges", lambda: wit((sorted(map(sorted, got)), sorted(map(sorted, exp)))))
     # ---- clique -----------------------------------------------------------------------------
     exp_pairs = {frozenset(p) for e in edges for p in itertools.combinations(e, 2)}
-    for keep in (False, True):
+    for keep in ((False, True) if not only_line else ()):
         g = call(pr.clique_projection, h, keep_isolated=keep)
         if isinstance(g, _Raised):
             ctx.check("C10:clique", False, f"C10:clique:raised:{type(g.e).__name__}", lambda: wit(g))
@@ -122,6 +139,8 @@ def undirected_eval(ctx, rng, idx, h):
             ctx.check("C10:clique", V <= nodes and V >= set().union(*exp_pairs) if exp_pairs else V <= nodes, "C10:clique(keep_isolated=False):node-set", lambda: wit(V))
     # ---- line graph -------------------------------------------------------------------------
     combos = [("intersection", s) for s in (1, 2, 3, 4)] + [("jaccard", s) for s in JS]
+    if only_line:
+        combos += [("intersection", s) for s in (255, 256, 257, 258)]
     realised = sorted({len(a & b) / len(a | b) for a, b in itertools.combinations(edges, 2) if a & b})
     combos = rng.sample(combos, 5 if ctx.tier == "quick" else 10) + [("jaccard", s) for s in realised[:6]]  # thresholds hit exactly
     # ... and thresholds a hair above / below a realised value (1e-11 relative: far beyond rounding of the quotient,
@@ -156,8 +175,10 @@ def undirected_eval(ctx, rng, idx, h):
                 if weighted and set(got) == set(exp):
                     ctx.check("C10:line", got == exp, f"C10:line_graph({kind}):weights", lambda: wit((kind, s, got, exp)))
     # ---- simplicial complex -----------------------------------------------------------------
-    sc = call(simplicial_complex, h)
-    if isinstance(sc, _Raised):
+    sc = call(simplicial_complex, h) if not only_line else _Raised(RuntimeError("skipped"))
+    if only_line:
+        pass
+    elif isinstance(sc, _Raised):
         if edges:  # (an edgeless input has no downward closure to build; not claimed)
             ctx.check("C10:simplicial", False, f"C10:simplicial_complex:raised:{type(sc.e).__name__}", lambda: wit(sc))
     else:
